@@ -318,7 +318,7 @@ StepWConnect ==
                 \cup CrashTags(Ev.abort, st, exp.st, log, <<0, 0>>, g.granted)
                 \cup (IF Comparable(exp.abort, Ev.abort)
                       THEN Conf(exp, log, sends, "C07", "C01", "C01", "C01", "C02")
-                           \cup Lift(C01_WConnect(st, E, log, g) \cup C02_Sends(st, E, log, g) \cup C02_Status(st, E, log, g2)
+                           \cup Lift(C01_WConnect(st, E, log, g) \cup C06_WConnect(st, E, log, g) \cup C02_Sends(st, E, log, g) \cup C02_Status(st, E, log, g2)
                                      \cup C07_Frozen(st, log) \cup C07_Copies(log))
                            \cup CacheTags(Ev.post, exp.st.wCache, st.rIndex)
                       ELSE {})
